@@ -181,9 +181,22 @@ func errPropFunc(p *prog.Prog, info *types.Info, fname string, outer *ast.FuncTy
 	})
 	for obj, l := range refs {
 		sort.Slice(l, func(i, j int) bool { return l[i].pos < l[j].pos })
-		named := false // named results are "used" by a bare return
+		// a named result is also "used" by a bare return that follows the definition
+		named := false
 		if v, ok := obj.(*types.Var); ok && v.Pos() < body.Pos() {
 			named = true
+		}
+		if named {
+			ast.Inspect(body, func(nd ast.Node) bool {
+				if _, isLit := nd.(*ast.FuncLit); isLit {
+					return false
+				}
+				if ret, ok := nd.(*ast.ReturnStmt); ok && len(ret.Results) == 0 {
+					l = append(l, errRef{pos: ret.Pos()})
+				}
+				return true
+			})
+			sort.Slice(l, func(i, j int) bool { return l[i].pos < l[j].pos })
 		}
 		for i, d := range l {
 			if !d.isDef || d.call == nil {
@@ -198,7 +211,7 @@ func errPropFunc(p *prog.Prog, info *types.Info, fname string, outer *ast.FuncTy
 				break
 			}
 			// a use textually before (loop head) counts only if the definition is inside a loop: rare; not accepted
-			if !used && !named {
+			if !used {
 				site("dropped", calleeName(p, info, d.call), d.call.Pos(), "the error returned by this call is overwritten or goes out of scope without being looked at")
 			}
 		}
